@@ -286,10 +286,17 @@ impl Iterator for BackoffStrategyIter {
             return None;
         }
 
+        // Delays that would overflow saturate, and are then clamped to `max_duration` below
         let mut next_duration = match self.strategy_type {
-            Strategy::Linear => step * current_attempt,
+            Strategy::Linear => step.saturating_mul(current_attempt),
             Strategy::Constant => step,
-            Strategy::Exponential(factor) => step.mul_f64(factor.pow(current_attempt - 1) as f64),
+            Strategy::Exponential(factor) => {
+                match (factor as u128).checked_pow(current_attempt - 1) {
+                    Some(multiplier) => saturating_mul(step, multiplier),
+                    None if step.is_zero() => Duration::ZERO,
+                    None => Duration::MAX,
+                }
+            }
         };
 
         self.current_attempt += 1;
@@ -305,6 +312,19 @@ impl Iterator for BackoffStrategyIter {
         };
 
         Some(next)
+    }
+}
+
+/// Multiplies a duration by an integer scalar, saturating at [Duration::MAX] on overflow.
+fn saturating_mul(duration: Duration, multiplier: u128) -> Duration {
+    const NANOS_PER_SEC: u128 = 1_000_000_000;
+
+    match duration.as_nanos().checked_mul(multiplier) {
+        Some(nanos) if nanos / NANOS_PER_SEC <= u64::MAX as u128 => Duration::new(
+            (nanos / NANOS_PER_SEC) as u64,
+            (nanos % NANOS_PER_SEC) as u32,
+        ),
+        _ => Duration::MAX,
     }
 }
 
